@@ -41,8 +41,9 @@ type RunSpec struct {
 	ExecBudgetS   int               `json:"exec_budget_s"`
 	Shares        bool              `json:"share_abstraction"`
 	MaxIters      int               `json:"max_iters"`
+	Replay        string            `json:"replay"`        // "interpreter": confirm models by concrete re-execution in the executor (harnesses whose stubs have no native counterpart)
 	UnwindPolicy  string            `json:"unwind_policy"` // "obligation:<id>": a loop that can exceed the bound is a violation (non-termination)
-	ExpectSat     []string          `json:"expect_sat"` // obligation ids that are informational witnesses
+	ExpectSat     []string          `json:"expect_sat"`    // obligation ids that are informational witnesses
 	Informational []string          `json:"informational"`
 }
 
@@ -445,34 +446,7 @@ func runInstance(ld *sym.Loaded, spec *Spec, rs *RunSpec, args []int64, known ma
 	if spec.MaxSymLen > 0 {
 		e.MaxSymLen = spec.MaxSymLen
 	}
-	if len(spec.Stubs) > 0 {
-		stubsCopy := spec.Stubs
-		e.SetUserStub(func(ex *sym.Exec, st *sym.State, fn *ssa.Function, args []sym.Val, where string) (sym.Val, bool) {
-			for _, sp := range stubsCopy {
-				if fn.Name() == sp.Func && (fn.Pkg == ex.Pkg || fn.Pkg == nil) {
-					if sp.Log {
-						ex.LogCall(st, fn, args)
-					}
-					if sp.Returns == "zero" {
-						return ex.ZeroResults(fn), true
-					}
-					if sp.Returns == "error" {
-						return ex.NondetError(sp.Input), true
-					}
-					if sp.Returns == "float-by-arg" {
-						// a parsed number: one symbolic value per distinct (concrete) text argument
-						return ex.FloatByArg(sp.Input, args[0]), true
-					}
-					if sp.Returns == "bool-nil" {
-						// (nondeterministic bool, nil error), a fresh bool per call
-						return ex.BoolNilPerCall(sp.Input), true
-					}
-					return ex.Input(sp.Input, "int", fn.Signature.Results().At(0).Type()), true
-				}
-			}
-			return nil, false
-		})
-	}
+	installStubs(e, spec)
 	if rs.Unwind > 0 {
 		e.Unwind = rs.Unwind
 	}
@@ -637,6 +611,16 @@ func runInstance(ld *sym.Loaded, spec *Spec, rs *RunSpec, args []int64, known ma
 			case "unsat":
 			case "sat":
 				vals := modelValues(e, r.Values)
+				if rs.Replay == "interpreter" {
+					fails := interpReplay(ld, spec, rs, args, vals, known)
+					if contains(fails, q.id) {
+						p := storeReplay(spec.Property, q.id, rs.Harness, toInts(args), vals, knownList(known))
+						res.violations = append(res.violations, violation{obl: q.id, replay: p})
+					} else {
+						res.inconcl = append(res.inconcl, fmt.Sprintf("UNCONFIRMED %s: model does not reproduce in the concrete interpreter run (fails=%v)", q.id, fails))
+					}
+					continue
+				}
 				fails, assumeBad, outp, err := nativeReplay(spec, rs.Harness, toInts(args), vals, knownList(known))
 				if err != nil {
 					res.inconcl = append(res.inconcl, fmt.Sprintf("UNCONFIRMED %s: replay failed: %v %s", q.id, err, tail(outp, 400)))
@@ -772,6 +756,70 @@ func knownWitness(prop, obl, harness string, args []int) string {
 		}
 	}
 	return ""
+}
+
+func installStubs(e *sym.Exec, spec *Spec) {
+	if len(spec.Stubs) > 0 {
+		stubsCopy := spec.Stubs
+		e.SetUserStub(func(ex *sym.Exec, st *sym.State, fn *ssa.Function, args []sym.Val, where string) (sym.Val, bool) {
+			for _, sp := range stubsCopy {
+				if fn.Name() == sp.Func && (fn.Pkg == ex.Pkg || fn.Pkg == nil) {
+					if sp.Log {
+						ex.LogCall(st, fn, args)
+					}
+					if sp.Returns == "zero" {
+						return ex.ZeroResults(fn), true
+					}
+					if sp.Returns == "error" {
+						return ex.NondetError(sp.Input), true
+					}
+					if sp.Returns == "float-by-arg" {
+						// a parsed number: one symbolic value per distinct (concrete) text argument
+						return ex.FloatByArg(sp.Input, args[0]), true
+					}
+					if sp.Returns == "bool-nil" {
+						// (nondeterministic bool, nil error), a fresh bool per call
+						return ex.BoolNilPerCall(sp.Input), true
+					}
+					return ex.Input(sp.Input, "int", fn.Signature.Results().At(0).Type()), true
+				}
+			}
+			return nil, false
+		})
+	}
+}
+
+// interpReplay re-executes the harness in the executor with all inputs concrete (the executor then
+// is an interpreter of the same SSA with the same stubs) and returns the obligations that fail.
+func interpReplay(ld *sym.Loaded, spec *Spec, rs *RunSpec, args []int64, vals map[string]string, known map[string]bool) (fails []string) {
+	mode := rs.Mode
+	if mode == "" {
+		mode = "R"
+	}
+	e := sym.NewExec(ld.Prog, ld.Pkg, mode)
+	e.Known = known
+	e.DecSegs = spec.DecSegs
+	e.Concrete = vals
+	if rs.Unwind > 0 {
+		e.Unwind = rs.Unwind
+	}
+	installStubs(e, spec)
+	func() {
+		defer func() {
+			if r := recover(); r != nil {
+				fails = append(fails, fmt.Sprintf("interpreter error: %v", r))
+			}
+		}()
+		if err := e.RunHarness(rs.Harness, args); err != nil {
+			fails = append(fails, "interpreter error: "+err.Error())
+		}
+	}()
+	for _, o := range e.Obls {
+		if o.Guard.IsTrue() && o.Cond.IsFalse() {
+			fails = append(fails, o.ID)
+		}
+	}
+	return fails
 }
 
 func knownList(k map[string]bool) []string {
